@@ -16,16 +16,61 @@ def _env(seed, libxml):
     return e
 
 
+T_NUMA, T_MEMCACHE = 14, 15      # checked against hwloc.h by the ENUM line of every dump
+COV = "__coverage__"
+
+
 def verdicts(dump_path, mout):
+    """-> {caseid: verdict of the oracle, "ENUM": .., COV: {counter: n}}.  The coverage counters are read from the dump itself (what
+    was really loaded): topologies with a memory-side cache, with a memory object nested in a memory object, and those among them that
+    were loaded WITHOUT INCLUDE_DISALLOWED while some PU / NUMA node of the machine is not allowed (root complete set != allowed set)."""
     run_model("topo", dump_path, mout)
-    out = {}
-    tag = None
+    out, cov = {}, {}
+    head, types, nested, nested2, memcache, root = None, {}, 0, 0, 0, None
+
+    def bump(k):
+        cov[k] = cov.get(k, 0) + 1
     with open(dump_path, errors="replace") as fd, open(mout, errors="replace") as fm:
         for dl, ml in zip(fd, fm):
-            if dl.startswith("END "):
+            if dl.startswith("O "):
+                t = dl.split(" ", 28)
+                if len(t) < 28:
+                    continue
+                oid, ty, par = t[1], int(t[2]), t[7]
+                types[oid] = ty
+                if root is None:
+                    root = (t[24], t[26])
+                if ty == T_MEMCACHE:
+                    memcache += 1
+                if ty in (T_NUMA, T_MEMCACHE) and types.get(par) == T_MEMCACHE:
+                    nested += 1
+                    if ty == T_MEMCACHE:
+                        nested2 += 1
+            elif dl.startswith("TOPO "):
+                t = dl.split()
+                head, types, nested, nested2, memcache, root = (int(t[2]), t[6], t[7]), {}, 0, 0, 0, None
+            elif dl.startswith("END "):
                 out[dl.split()[1]] = ml.strip()
+                if head and root:
+                    dis = head[0] % 2 == 0 and (head[1] != root[0] or head[2] != root[1])
+                    if dis:
+                        bump("disallowed_removed")
+                    if head[0] & 4:
+                        bump("thissystem_allowed_resources" + ("_effective" if dis else ""))
+                    if memcache:
+                        bump("with_memcache")
+                    if nested:
+                        bump("nested_memory")
+                        if dis:
+                            bump("nested_memory_and_disallowed_removed")
+                    if nested2:
+                        bump("memcache_below_memcache")
+                        if dis:
+                            bump("memcache_below_memcache_and_disallowed_removed")
+                head = None
             elif dl.startswith("ENUM"):
                 out["ENUM"] = ml.strip()
+    out[COV] = cov
     return out
 
 
@@ -66,7 +111,7 @@ def run_engine(tier, seed, kinds="XFC", sizes=None):
         for l in read_lines(f):
             if not l or l.startswith("#"):
                 continue
-            l = l.replace("@SNAP@", snapshots.SNAP)
+            l = l.replace("@SNAP@", snapshots.SNAP).replace("@REPO@", REPO).replace("@ROOT@", ROOT)
             for lx in (0, 1):
                 rr, vv = replay_case(binp, workdir, l, lx)
                 ncorpus += 1
@@ -83,13 +128,35 @@ def run_engine(tier, seed, kinds="XFC", sizes=None):
     samples = []
     for r in results:
         cases = [l for l in r["plan"] if l and not l.startswith("#")]
+        for k, v in r["verdicts"].get(COV, {}).items():
+            stats["cover." + k] = stats.get("cover." + k, 0) + v
+        for l in r["plan"]:
+            if l.startswith("# derived "):
+                t = l.split()
+                for k, v in zip(t[2::2], t[3::2]):
+                    stats["derived." + k] = stats.get("derived." + k, 0) + int(v)
         for l in cases:
             t = l.split(None, 4)
             if len(t) < 5:
                 continue
             cid, kind = t[0], t[1]
             stats["kind." + kind] = stats.get("kind." + kind, 0) + 1
+            if kind == "R":
+                stats["kind.R.from_" + t[4].split()[1]] = stats.get("kind.R.from_" + t[4].split()[1], 0) + 1
+            if len(t[3]) > T_MEMCACHE and t[3][T_MEMCACHE] in "023":
+                stats["filter.memcache_kept"] = stats.get("filter.memcache_kept", 0) + 1
+            if t[3] != "-" * 20:
+                stats["filter.non_default"] = stats.get("filter.non_default", 0) + 1
             v = r["verdicts"].get(cid)
+            # The re-insertion oracle (the tree is what hwloc___insert_object_by_cpuset would rebuild) speaks about back ends that
+            # discover by insertion.  The XML importer links objects as the document nests them and never inserts by cpuset, so a
+            # document whose nesting insertion would not produce (kind R retypes an object to a Group) is no finding: for topologies
+            # read from XML (kinds X, B, R) that one clause is not judged; every WF clause proper still is.
+            if v is not None and kind in "XBR" and v.startswith("WF FAIL "):
+                items = [x for x in v[len("WF FAIL "):].split(",") if x != "reinsertion-differs"]
+                if len(items) != len(v[len("WF FAIL "):].split(",")):
+                    stats["reinsertion_clause_not_judged_on_xml"] = stats.get("reinsertion_clause_not_judged_on_xml", 0) + 1
+                v = ("WF FAIL " + ",".join(items)) if items else "WF ok"
             if v is None:
                 stats["load_failed"] += 1
             else:
@@ -112,6 +179,13 @@ def run_engine(tier, seed, kinds="XFC", sizes=None):
     shutil.rmtree(workdir, ignore_errors=True)
     return {"evaluations": stats["loaded"] + stats["load_failed"], "distinct_nontrivial": len(distinct), "distribution": stats,
             "sources": nsrc, "problems": problems, "samples": samples,
-            "rule": "each case = (source, type-filter assignment, flag subset): generated synthetic strings, the bundled XML files (file and "
-                    "buffer, both XML back ends), the bundled Linux (HWLOC_FSROOT) and x86 (HWLOC_CPUID_PATH) snapshots; non-trivial = load "
-                    "succeeded and the dump was judged by wfCheck; distinct = distinct (kind, flags, filters, source) tuples"}
+            "rule": "each case = (source, type-filter assignment, flag subset): generated synthetic strings (NUMA nodes with memory-side "
+                    "caches in ~40 % of the NUMA specifications), the bundled XML files (file and buffer, both XML back ends), the bundled "
+                    "Linux (HWLOC_FSROOT) and x86 (HWLOC_CPUID_PATH) snapshots, and derived sources (kind R, harness/derive.h: any of the "
+                    "former loaded with every type kept, random subsets of its PUs / NUMA nodes made the allowed sets, exported to current or "
+                    "v2 XML and re-loaded: really disallowed resources under every filter assignment); flags additionally "
+                    "IS_THISSYSTEM[|THISSYSTEM_ALLOWED_RESOURCES] on ~12 % of the non-back-end cases (the sandbox's cgroup disallows what it "
+                    "does not have); the MemCache filter keeps memory-side caches in about half of the cases; non-trivial = load succeeded "
+                    "and the dump was judged by wfCheck; distinct = distinct (kind, flags, filters, source) tuples; cover.* counters are "
+                    "read from the dumps of the loaded topologies (nested_memory = a memory object whose parent is a memory-side cache; "
+                    "disallowed_removed = loaded without INCLUDE_DISALLOWED while the root complete sets exceed the allowed sets)"}
